@@ -6,6 +6,7 @@
                                                /repo and /verif in a mount namespace of their own (unshare -m), so the lanes do not see
                                                each other and /repo itself is never touched. Logs: /tmp/lane/<i>.log
   seedregress.py report                        summary of the logs: every seed that is NOT reported (exit != 1)
+  seedregress.py record [first]                write the results of the logs into seeded/<id>/meta.json (first: only as first_run)
   seedregress.py clean                         remove /tmp/lane
 
 (lane mode, internal)  seedregress.py lane <ID..>
@@ -80,5 +81,24 @@ if __name__ == "__main__":
         start(int(sys.argv[2]), sys.argv[3:])
     elif cmd == "report":
         report()
+    elif cmd == "record":
+        # write the lane results into seeded/<id>/meta.json (check_runs), like `seed.py run` does
+        import ast, re
+        head = subprocess.check_output(["git", "-C", "/repo", "rev-parse", "--short", "HEAD"], text=True).strip()
+        for f in sorted(glob.glob(f"{BASE}/*.log")):
+            for l in open(f):
+                m = re.match(r"RESULT (\S+) (\S+) exit=(\d+) violations=(\d+) wall=(\d+)s (.*)$", l.strip())
+                if not m:
+                    continue
+                sid, prop, rc, nv, wall, keys = m.groups()
+                mp = f"{VERIF}/seeded/{sid}/meta.json"
+                meta = json.load(open(mp))
+                rec = {"check": prop, "tier": "quick", "exit": int(rc), "violations": int(nv), "keys": ast.literal_eval(keys), "wall_s": int(wall), "repo_commit": head, "via": "seedregress lane"}
+                if "first_run" not in meta:
+                    meta["first_run"] = {"check": prop, "exit": int(rc), "keys": rec["keys"]}
+                if "first" not in sys.argv[2:]:
+                    meta["check_runs"] = [r for r in meta.get("check_runs", []) if r["check"] != prop] + [rec]
+                json.dump(meta, open(mp, "w"), indent=1)
+        print("recorded")
     elif cmd == "clean":
         sh(f"rm -rf {BASE}")
